@@ -1,13 +1,38 @@
 (* C15 - Printing and parsing positions round-trips, and parsing never crashes.
-   Proved: totality of the (repaired) parser on ALL texts; the decimal header round trip for every move number
-   below 2^64; every letter the printer emits for a square decodes to that square's content and is never
-   the separator.  PARTIAL: the assembly of these into `parse (print s) = Ok s'` with `board s' = board s`
-   (list surgery over the 8 rows) is not proved; monitors 15.1-15.4 check it on every visited state. *)
+   Text is a list of Unicode code points; parse_state_fixed is the model of the repaired parser (fix: 382635e),
+   parse_state_orig of the unrepaired one (finding F1). *)
 From Coq Require Import NArith List Bool.
-From Arimaa Require Import Types U64 Board Engine Cells Notation Display Trace Monitors DiagramLemmas.
+From Arimaa Require Import Types U64 Board Zobrist Engine Cells Notation Display Trace Monitors DiagramLemmas DiagramRoundtrip.
 Import ListNotations.
 Open Scope N_scope.
 
+(* parsing the printed diagram of ANY state with a well-formed board and a move number below 2^64 (any phase, any
+   step) yields a start-of-turn state with the same board, side and move number, status None, history = [hash] *)
+Theorem C15_roundtrip : forall s, WFb (board s) -> move_no s < P64 ->
+  parse_state_fixed (print_state s) = Ok (reparsed s).
+Proof. exact parse_print. Qed.
+Print Assumptions C15_roundtrip.
+
+Theorem C15_reparsed_state : forall s, board (reparsed s) = board s /\ side (reparsed s) = side s /\ move_no (reparsed s) = move_no s /\
+  exists h, ph (reparsed s) = PlayPhase (play_initial h [h]) /\ h = hash (reparsed s) /\
+            hash (reparsed s) = z_from_piece_board (board (reparsed s)) (side (reparsed s)) 0.
+Proof. exact reparsed_fields. Qed.
+Print Assumptions C15_reparsed_state.
+
+(* its printed form is identical *)
+Theorem C15_reprint : forall s, print_state (reparsed s) = print_state s.
+Proof. exact reprint_identical. Qed.
+Print Assumptions C15_reprint.
+
+(* for start-of-turn states (hash = from-scratch hash: every reachable one, C08) the transposition hash is the same
+   and the two states compare equal *)
+Theorem C15_hash : forall s pp, ph s = PlayPhase pp -> step_of pp = 0 -> pstate pp = PPNone ->
+  hash s = z_from_piece_board (board s) (side s) 0 ->
+  transposition_hash (reparsed s) = transposition_hash s /\ state_eqb s (reparsed s) = true.
+Proof. exact reparsed_hash. Qed.
+Print Assumptions C15_hash.
+
+(* parsing ANY text returns a state or an error, never a panic *)
 Theorem C15_total : forall t, parse_state_fixed t <> Panic.
 Proof. exact parse_state_total. Qed.
 Print Assumptions C15_total.
@@ -16,10 +41,10 @@ Theorem C15_move_number_roundtrip : forall n, n < P64 -> parse_usize (print_dec 
 Proof. exact parse_print_dec. Qed.
 Print Assumptions C15_move_number_roundtrip.
 
-Theorem C15_letters_partial : forall b i, WFb b -> i < 64 ->
+Theorem C15_letters : forall b i, WFb b -> i < 64 ->
   letter_decodes (cell b i) (square_letter b i) = true /\ square_letter b i <> 124.
 Proof. exact diagram_letter_decodes. Qed.
-Print Assumptions C15_letters_partial.
+Print Assumptions C15_letters.
 
 (* the unrepaired parser panicked on "99999999999999999999999g" (both profiles) and on U+0661 "g" *)
 Theorem C15_original_refuted :
